@@ -27,7 +27,7 @@ def run(m, chk):
     trunc_float(r, chk, [D + "__new__"])
     from .extra import scale_reaches
 
-    scale_reaches(r, chk, ["heavy.Calculus.derivate_nonrational_bezier"], floor=2)
+    scale_reaches(r, chk, ["heavy.Calculus.derivate_nonrational_bezier"], floor=1)
     from .extra import point_ops
 
     point_ops(r, chk, [D + f for f in FUNCS], floor=4)
